@@ -330,6 +330,8 @@ func (c *Ctx) resetCase() {
 	c.guardOff = 0
 	c.pendingEnv = nil
 	c.decodeCache = map[string]decodeRes{}
+	c.pendingObs = nil
+	c.forks = nil
 }
 
 func runEntry(prog *ssa.Program, cfg *Config, e EntryCfg, tier string, funcByName map[string]*ssa.Function, workers int, solverKind string, timeoutS int, verbose bool, smtlog string) *EntryResult {
@@ -466,6 +468,14 @@ func (c *Ctx) runCase(entry *ssa.Function, presc []int) (cr *CaseResult) {
 				c.inconclusive(fmt.Sprintf("ENGINE-CRASH %v [%s]\n%s", r, c.where(), string(debug.Stack())))
 			}
 		}
+		func() {
+			defer func() {
+				if r := recover(); r != nil {
+					c.inconclusive(fmt.Sprintf("ENGINE-CRASH while deciding obligations: %v", r))
+				}
+			}()
+			c.flushObligations()
+		}()
 		for _, ch := range c.choiceLog {
 			cr.Choices = append(cr.Choices, fmt.Sprintf("%s=%d", ch.name, ch.pick))
 		}
